@@ -50,38 +50,70 @@ def _feature(att, member: str):
     return None
 
 
-def _world(proj: Project, comp, scores: List[float], complete: bool, equiv: bool, at_most_one: bool):
+def _candidates(n: int, complete: bool):
+    """n distinct rankings over 1..4 (rotations / tie variants); when incomplete the first one lacks an element."""
+    base = [[{1}, {2}, {3}, {4}], [{2}, {3}, {4}, {1}], [{3}, {4}, {1}, {2}], [{4}, {1}, {2}, {3}], [{1, 2}, {3, 4}]]
+    raws = [[set(b) for b in r] for r in base[:n]]
+    if not complete:
+        raws[0] = [{1}, {2}, {3}]
+    return raws
+
+
+def _key(r) -> tuple:
+    return tuple(frozenset(e.attrs["_value"] for e in b) for b in r.attrs["_buckets"])
+
+
+def _world(proj: Project, comp, scores: List[float], complete: bool, equiv: bool, at_most_one: bool, raws=None):
+    """PickAPerm's real entry point on a real Dataset of len(scores) distinct rankings; only the scorer is scripted
+    (candidate i scores scores[i]) so that every weak ordering of candidate scores can be realised, and the scheme's
+    equivalence test answers `equiv`. Candidates are named R<i> (complete) / U<i> (unified, incomplete)."""
+    from .datamodel import World
     n = len(scores)
-    plain = [f"R{i}" for i in range(n)]
-    unified = [f"U{i}" for i in range(n)]
-    log = {"scored": [], "equiv_args": [], "scheme_for_factory": []}
+    log = {"scored": [], "equiv_args": [], "scheme_for_factory": [], "foreign": []}
     rt, me = _runtime(proj)
+    raws = _candidates(n, complete) if raws is None else raws
+    R = proj.cls("corankco.ranking", "Ranking")
+    D = proj.cls("corankco.dataset", "Dataset")
+    ds = rt.new(D, [[rt.new(R, [[set(b) for b in r]], {}) for r in raws]], {})
+    pre = "R" if complete else "U"
+    uni = {x for r in raws for b in r for x in b}
+    names = {}
+    for i, r in enumerate(raws):
+        miss = uni - set().union(*r)
+        names.setdefault(tuple(frozenset(b) for b in r) + ((frozenset(miss),) if (miss and not complete) else ()), f"{pre}{i}")
+
+    def name_of(r):
+        try:
+            return names.get(_key(r), f"<foreign ranking {_key(r)}>")
+        except Exception:
+            return repr(r)
 
     def is_eq(ev, call, a, kw):
         log["equiv_args"].append(a)
         return equiv
     scheme = Obj("SCHEME", methods={"is_equivalent_to": is_eq})
-    ds = Obj("DS", {"is_complete": complete, "rankings": plain},
-             {"unified_rankings": lambda ev, call, a, kw: unified})
 
     def factory(ev, call):
         a = [ev.ev(x) for x in call.args]
         log["scheme_for_factory"].append(a)
 
         def gks(ev2, c2, a2, k2):
-            log["scored"].append(a2)
-            r = a2[0]
-            if not (isinstance(r, str) and r[1:].isdigit()):
-                raise Unsupported("scored object is not a candidate ranking", c2)
-            return scores[int(r[1:])]
+            nm = name_of(a2[0]) if a2 else "?"
+            log["scored"].append([nm] + list(a2[1:]))
+            if not (nm[:1] == pre and nm[1:].isdigit()):
+                log["foreign"].append(nm)       # neither an input ranking (complete) nor a unified one (incomplete)
+                return 0.0
+            return scores[int(nm[1:])]
         return Obj("KCF", methods={"get_kemeny_score": gks})
     captured: Dict = {}
 
     def consensus(ev, call):
-        names = ["consensus_rankings", "dataset", "scoring_scheme", "att"]
+        argn = ["consensus_rankings", "dataset", "scoring_scheme", "att"]
         kw = {k.arg: ev.ev(k.value) for k in call.keywords}
         for i, a in enumerate(call.args):
-            kw[names[i]] = ev.ev(a)
+            kw[argn[i]] = ev.ev(a)
+        if isinstance(kw.get("consensus_rankings"), list):
+            kw["consensus_rankings"] = [name_of(r) for r in kw["consensus_rankings"]]
         captured.update(kw)
         return "CONSENSUS"
     rt.funcs["KemenyComputingFactory"] = factory
@@ -103,7 +135,7 @@ def check_scan(res: Result, proj: Project, rule: str = "K2"):
     cls = proj.cls(MOD, "PickAPerm")
     comp = proj.method(cls, "compute_consensus_rankings")
     res.saw(comp)
-    profiles = [list(map(float, p)) for p in spec.WEAK_ORDERS_3] + [[3.0, 1.0, 1.0, 2.0], [4.0]]
+    profiles = [list(map(float, p)) for p in spec.WEAK_ORDERS_3] + [[3.0, 1.0, 1.0, 2.0], [4.0], [2.0, 5.0, 2.0, 7.0, 2.0]]
     bad = None
     bad_ctx = None
     n = 0
@@ -120,7 +152,7 @@ def check_scan(res: Result, proj: Project, rule: str = "K2"):
                     ok = isinstance(got, list) and len(got) == 1 and got[0] in minimal
                 else:
                     ok = isinstance(got, list) and sorted(got) == sorted(minimal)
-                ok = ok and st == ("ok", "CONSENSUS") and _feature(att, "KEMENY_SCORE") == min(prof)
+                ok = ok and st == ("ok", "CONSENSUS") and _feature(att, "KEMENY_SCORE") == min(prof) and not log["foreign"]
                 if not ok and bad is None:
                     bad = (prof, amo, complete, got, _feature(att, "KEMENY_SCORE"), minimal)
                 ctx_ok = cap.get("dataset") is ds and cap.get("scoring_scheme") is scheme \
@@ -138,6 +170,34 @@ def check_scan(res: Result, proj: Project, rule: str = "K2"):
               comp.loc(), ok_detail="every candidate scored once against the caller's dataset under the caller's scheme",
               bad_detail=(f"scores {bad_ctx[0]} complete={bad_ctx[1]}: scoring calls {bad_ctx[2]!r}, factory args "
                           f"{bad_ctx[3]!r}, Consensus dataset {bad_ctx[4]!r}") if bad_ctx else "")
+
+
+def _check_long(res: Result, proj: Project, comp):
+    """Long rankings (1003 elements) that differ only in the middle, one of them twice: whatever the code uses to
+    recognise a ranking it has already scored must tell them apart (the text numpy gives of an array of more than 1000
+    items drops its middle, see engines/abseval.render_array)."""
+    n = 1003
+    first = [{i} for i in range(n)]
+    second = [{i} for i in range(n)]
+    second[n // 2], second[n // 2 + 1] = second[n // 2 + 1], second[n // 2]
+    raws = [first, second, [set(b) for b in second]]
+    # scripted scores of the distinct candidates: `second` (R1, listed twice) is strictly better than `first` (R0)
+    scores = [2.0, 1.0, 1.0]
+    bad = None
+    for amo in (True, False):
+        st, cap, log, ds, scheme = _world(proj, comp, scores, True, True, amo, raws=raws)
+        got = cap.get("consensus_rankings")
+        want = ["R1"] if amo else ["R1", "R1"]
+        rep = _feature(cap.get("att") or {}, "KEMENY_SCORE")
+        if st != ("ok", "CONSENSUS") or got != want or rep != 1.0 or log["foreign"]:
+            bad = bad or (amo, st, got, rep, want)
+    res.rule("K6", "candidates are told apart whatever their length (1003-element rankings differing in the middle)", 1)
+    res.check(bad is None, "K6", "PickAPerm.compute_consensus_rankings:long-rankings", comp.loc(),
+              ok_detail="two 1003-element rankings differing at positions 501/502 keep their own scores; the best one (present "
+                        "twice) is returned",
+              bad_detail=(f"at_most_one={bad[0]}: rankings R0 (score 2) and R1 = R0 with positions 501/502 swapped (score 1, "
+                          f"present twice): outcome {bad[1]!r}, returned {bad[2]!r} with reported score {bad[3]!r}; expected "
+                          f"{bad[4]} with score 1.0") if bad else "")
 
 
 def run(ctx) -> Result:
@@ -160,6 +220,9 @@ def run(ctx) -> Result:
             good = good and st[1] == "InompleteRankingsIncompatibleWithScoringSchemeException"
         if not complete:
             good = good and log["equiv_args"] == [["UNIFYING"]]
+        if log["foreign"]:
+            good = False
+            detail += f"; scored {log['foreign'][0]}, which is not a candidate (input rankings when complete, unified rankings otherwise)"
         if got == "ok":
             pre = "R" if complete else "U"
             good = good and cap.get("consensus_rankings") == [f"{pre}1"]
@@ -168,6 +231,7 @@ def run(ctx) -> Result:
                   bad_detail=detail + f"; expected {want}; equivalence asked against {log['equiv_args']!r}; "
                                       f"returned {cap.get('consensus_rankings')!r}")
     check_scan(res, proj, "K2")
+    _check_long(res, proj, comp)
     from . import C19
     C19.check_equivalence(res, proj, False, "K4")
     check_unified(res, proj, "K5")
